@@ -502,13 +502,27 @@ class Check(PropertyCheck):
                   "head was relayed before the error as input (none / own 100 / 102 / 103 / 101 / final / final+body): proved that a page is written "
                   "only before any head, never after a 101 or a final head (error_page_only_before_any_head, wire_unchanged_after_101_or_final); "
                   "tied on the real Http1Server for every ErrorCode x head kind, and end to end on upgrade requests (websocket, POST+Upgrade with a "
-                  "streamed body, Expect: 100-continue, CONNECT) with the upstream dying at each point, the client's wire read by a framing reader.")
+                  "streamed body, Expect: 100-continue, CONNECT) with the upstream dying at each point, the client's wire read by a framing reader. "
+                  "Whole connection: for EVERY sequence of relayed heads / body chunks / errors at most one page is written and then the wire is "
+                  "exactly that response (h1_history_at_most_one_page; tied by op sequences on the real Http1Server). The HTTP/2 send site is "
+                  "modelled too (h2ErrorReply: closed / open for us / headers sent, RST_STREAM code table): a page only on a stream without response "
+                  "headers, with :status/server/content-type text/html and the page as body (h2_error_reply_page; tied on the real Http2Server for "
+                  "every ErrorCode x stream state). Clauses: 'only in escaped form' = escaped_has_no_markup, unescape_escape, page_is_template, "
+                  "page_markup_independent, page_amps_ok | oracle scan_page; 'declares an HTML content type' = h1_declares_html + page_wellformed, "
+                  "h2_declares_html, h2_error_reply_page | oracle content-type checks; 'complete, correctly framed HTTP/1 response' = page_wellformed, "
+                  "h1_error_reply_wellformed, error_page_only_before_any_head, wire_unchanged_after_101_or_final, h1_history_at_most_one_page | "
+                  "oracle parse_h1_stream / read_client_wire.")
     level_note = ("trusted: Lean kernel; the differential tie (exhaustive short strings over the special characters + random "
                   "+ end-to-end recorded calls); CPython html.escape / textwrap.dedent / str.strip / str.encode are the modelled "
                   "primitives (UTF-8 encoding commutes with them since they touch ASCII only: messages travel to the model as "
                   "their utf8/replace bytes); the reason-phrase table, the Server header text and the ErrorCode->status map are "
                   "regenerated from /repo into Gen/C12.lean on every run; hpack/h2 framing of the HTTP/2 page is the h2 library's. "
-                  "HTTP/3 uses the same format_error and header triple and is not driven end-to-end.")
+                  "HTTP/3 uses the same format_error and header triple and is not driven end-to-end. Still assumed, not proved: that html.escape / "
+                  "dedent / strip commute with UTF-8 encoding (they inspect ASCII only; exercised by non-ASCII, invalid-UTF-8 and look-alike inputs in "
+                  "every run); the end-to-end tie replays the (status, message) pairs the code passed to format_error (parser error texts are not "
+                  "predicted), page-or-no-page is predicted from the scenario. Observations outside C12: after mitmproxy's own 100 Continue an upstream "
+                  "failure closes without any page; a failed CONNECT is answered by a plain-text 502 without Content-Type that carries the upstream "
+                  "error text unescaped (not an HTML page, not produced by format_error).")
     technique = "Lean 4 proof (induction over bytes/lines, deletion-relation lemma for dedent/strip) + translator tables + differential and end-to-end correspondence"
     rule = ("fmt: a length ladder {0..64, 255/256/257, every length 1000..1030, 2 KiB, 8 KiB, 64 KiB} x markup density {0,10,50,100 %} and "
             "single-character messages whose ESCAPED length walks over 1000..1030, then every string of length <=2 (thorough: <=3, quick adds a slice of 3) over the 7 special characters & < > \" ' LF SP "
